@@ -9,7 +9,7 @@ from __future__ import annotations
 import json
 import os
 
-from ..common import Report, main_wrapper, scratch, seed, run_tlc, MachineryError, tlc_failure_excerpt
+from ..common import Report, main_wrapper, scratch, eff_seed, run_tlc, MachineryError, tlc_failure_excerpt
 from ..replay_eqv import replay
 from .. import eqvtrace
 from .args import parse
@@ -49,7 +49,7 @@ def main():
                 rep.sample({"history": rec["h"], "answers": rec["ans"]})
         # (3) recorded sessions
         sel = (lambda m, p: a.only in p.name()) if a.only else None
-        traces = eqvtrace.run(MODULES, seed(), sessions=2 if quick else 10, length=8 if quick else 12, select=sel)
+        traces = eqvtrace.run(MODULES, eff_seed(), sessions=2 if quick else 10, length=8 if quick else 12, select=sel)
         keys = sorted({k for t in traces for k in t["keys"]})
         np_ = max([t["n"] for t in traces] + [1])
         path = os.path.join(d, "eqv_traces.json")
